@@ -554,6 +554,7 @@ class FlatLinearOperator(ScipyLinearOperator):
                 npc_vec.legs[0] = npc_vec.legs[0].to_LegCharge()
             return npc_vec[self._mask].to_ndarray()
         else:
+            npc_vec = npc_vec.copy(deep=False)  # don't transpose the argument in place
             npc_vec.itranspose([self.vec_label, 'charge'])
             res = np.zeros([self.leg.ind_len], npc_vec.dtype)
             leg = self.leg
